@@ -187,8 +187,9 @@ def gen_policy1(rng, pool):
     return {"type": "other", "s": b"", "fs": []}
 
 
-def gen_case(rng, big=False):
-    pool = gen_pool(rng, big)
+def gen_case(rng, big=False, pool=None):
+    if pool is None:
+        pool = gen_pool(rng, big)
     bad = pick(rng, [0, 0, 0.3, 0.3, 1])          # share of invalid fragments in this definition
     friendly = rng.random() < 0.5                 # every string expressible as configuration text
     r = rng.random()
@@ -282,6 +283,90 @@ def annotation_family():
     return out
 
 
+LINKS = [b"socks5://127.0.0.1:1080#shared", b"socks5://127.0.0.1:1081#onlyA", b"socks5://127.0.0.1:1082#onlyB",
+         b"socks5://127.0.0.1:1083#hk%201", b"socks5://127.0.0.1:1084", b"http://u:p@1.2.3.4:80#shared", b"socks5://127.0.0.1:1085#%ff%00",
+         b"ss://YWVzLTEyOC1nY206cGFzcw@1.2.3.4:8388#ss%E6%97%A5"]
+BAD_LINKS = [b"notalink", b"socks5://", b"", b"nosuch://1.2.3.4:1#x"]
+LINK_TAGS = [b"alpha", b"beta", b"", b"my_sub", "订阅".encode()]
+
+
+def guess_name(link):
+    import urllib.parse
+    return urllib.parse.unquote_to_bytes(link.split(b"#", 1)[1]) if b"#" in link else b""
+
+
+def with_links(c, tagged, rng):
+    c = dict(c)
+    c["pool"] = []
+    c["from_links"] = True
+    c["tagged"] = tagged
+    return c
+
+
+def gen_links_case(rng, big=False):
+    """random tagged link lists with frequent duplicates across and within tags; the definition is generated
+    against the guessed pool (fragment = name) so that filters hit"""
+    tags = rng.sample(LINK_TAGS, rng.randint(1, 3))
+    base = rng.sample(LINKS, rng.randint(1, 4))
+    tagged = []
+    for t in tags:
+        k = rng.randint(0, 5 if big else 3)
+        ls = [pick(rng, base) if rng.random() < 0.9 else pick(rng, BAD_LINKS + LINKS) for _ in range(k)]
+        tagged.append({"tag": t, "links": ls})
+    guessed = [{"name": guess_name(l), "tag": e["tag"]} for e in tagged for l in e["links"] if l not in BAD_LINKS]
+    c = gen_case(rng, big, pool=guessed)
+    total = len(guessed)
+    if rng.random() < 0.4:
+        c["policy"] = {"type": "funcs", "s": b"", "fs": [{"name": b"fixed", "not": False,
+                       "params": [{"k": b"", "v": str(pick(rng, [total - 1, total, max(0, total - 2), len(set(e2 for e in tagged for e2 in e["links"]))])).encode()}]}]}
+        c.pop("text", None)
+        t = render_text(c, rng)
+        if t is not None:
+            c["text"] = t
+    return with_links(c, tagged, rng)
+
+
+def links_family():
+    """fixed family: the identical link under two tags / twice under one tag / three times mixed / with a
+    rejected link in between; x no filter, subtag(X), !subtag(Y), subtag && name, name with annotation;
+    policies incl. fixed(i) with i beyond the length a de-duplicated pool would have.  Each case three times:
+    the Go map iteration order decides which tag is visited first."""
+    sh, a, b = LINKS[0], LINKS[1], LINKS[2]
+    pools = [
+        [{"tag": b"alpha", "links": [a, sh]}, {"tag": b"beta", "links": [sh, b]}],
+        [{"tag": b"alpha", "links": [sh, sh, a]}],
+        [{"tag": b"alpha", "links": [sh, a, sh]}, {"tag": b"beta", "links": [sh]}, {"tag": b"", "links": [b]}],
+        [{"tag": b"alpha", "links": [a, b"notalink", sh]}, {"tag": b"", "links": [sh, b"socks5://", sh]}],
+    ]
+    P = lambda k, v: {"k": k, "v": v}
+    F = lambda n, neg, ps: {"name": n, "not": neg, "params": ps}
+    defs = [
+        ([], []),
+        ([[F(b"subtag", False, [P(b"", b"alpha")])]], [[]]),
+        ([[F(b"subtag", False, [P(b"", b"beta"), P(b"", b"")])]], [[P(b"add_latency", b"5ms")]]),
+        ([[F(b"subtag", True, [P(b"", b"alpha")])]], [[]]),
+        ([[F(b"subtag", False, [P(b"regex", b"^(beta)?$")]), F(b"name", False, [P(b"keyword", b"sha")])]], [[]]),
+        ([[F(b"name", False, [P(b"", b"shared")])], [F(b"subtag", True, [P(b"", b"beta")])]], [[P(b"add_latency", b"1s")], []]),
+    ]
+    out = []
+    n = 0
+    rng0 = random.Random(0)
+    for tagged in pools:
+        total = sum(1 for e in tagged for l in e["links"] if l not in BAD_LINKS)
+        distinct = len(set(l for e in tagged for l in e["links"] if l not in BAD_LINKS))
+        fx = lambda i: {"type": "funcs", "s": b"", "fs": [F(b"fixed", False, [P(b"", str(i).encode())])]}
+        pols = [{"type": "string", "s": b"min", "fs": []}, fx(total - 1), fx(distinct), fx(total)]
+        for lines, annos in defs:
+            c = {"pool": [], "lines": copy.deepcopy(lines), "annos": copy.deepcopy(annos), "policy": copy.deepcopy(pols[n % len(pols)])}
+            n += 1
+            t = render_text(c, rng0)
+            if t is not None:
+                c["text"] = t
+            for _ in range(3):
+                out.append(with_links(copy.deepcopy(c), copy.deepcopy(tagged), rng0))
+    return out
+
+
 # ----------------------------------------------------------------------------------------------
 # wire format
 # ----------------------------------------------------------------------------------------------
@@ -302,7 +387,9 @@ def wire_case(c):
             "lines": [wire_funcs(l) for l in c["lines"]],
             "annos": [wire_params(a) for a in c["annos"]],
             "policy": {"type": c["policy"]["type"], "s": hx(c["policy"]["s"]), "fs": wire_funcs(c["policy"]["fs"])},
-            **({"text": c["text"]} if c.get("text") else {})}
+            **({"text": c["text"]} if c.get("text") else {}),
+            **({"from_links": True, "tagged": [{"tag": hx(e["tag"]), "links": [hx(l) for l in e["links"]]} for e in c["tagged"]]}
+               if c.get("from_links") else {})}
 
 
 def unwire_case(w):
@@ -312,7 +399,9 @@ def unwire_case(w):
     return {"pool": [{"name": ub(n["name"]), "tag": ub(n["tag"])} for n in w["pool"]],
             "lines": [uf(l) for l in w["lines"]], "annos": [up(a) for a in w["annos"]],
             "policy": {"type": w["policy"]["type"], "s": ub(w["policy"]["s"]), "fs": uf(w["policy"]["fs"])},
-            **({"text": w["text"]} if w.get("text") else {})}
+            **({"text": w["text"]} if w.get("text") else {}),
+            **({"from_links": True, "tagged": [{"tag": ub(e["tag"]), "links": [ub(l) for l in e["links"]]} for e in w["tagged"]]}
+               if w.get("from_links") else {})}
 
 
 # ----------------------------------------------------------------------------------------------
@@ -409,7 +498,11 @@ def pretty_case(c):
         ps = "<non-function value>"
     else:
         ps = " && ".join(pf(f) for f in pol["fs"]) + (" (single function)" if pol["type"] == "func" else " (list)")
-    return {"pool": ["%d: name=%r subtag=%r" % (i, show(n["name"]), show(n["tag"])) for i, n in enumerate(c["pool"])],
+    if c.get("from_links"):
+        pl = {"subscription_tag -> links (pool built by NewDialerSetFromLinks)": {show(e["tag"]): [show(l) for l in e["links"]] for e in c["tagged"]}}
+    else:
+        pl = {"pool": ["%d: name=%r subtag=%r" % (i, show(n["name"]), show(n["tag"])) for i, n in enumerate(c["pool"])]}
+    return {**pl,
             "filter_lines": [" && ".join(pf(f) for f in l) for l in c["lines"]],
             "annotations": ["[" + ", ".join(pp(p) for p in a) + "]" for a in c["annos"]],
             "policy": ps, **({"config_text": c["text"]} if c.get("text") else {})}
@@ -456,7 +549,25 @@ def case_to_coq(c, r, sp):
 
     def cf(f):
         return "(mkFunc %s %s %s)" % (s(f["name"]), vlib.cbool(f["not"]), clist([cp(p) for p in f["params"]]))
-    pool = clist(["(mkNode %d%%N %s %s)" % (i, s(n["name"]), s(n["tag"])) for i, n in enumerate(c["pool"])])
+    if c.get("from_links"):
+        # the map entries in the iteration order the implementation took (first appearance in its pool; tags
+        # it shows no node for keep the case's order, after the others)
+        seen = []
+        for t, _ in r.get("impl_pool") or []:
+            if bytes.fromhex(t) not in seen:
+                seen.append(bytes.fromhex(t))
+        by_tag = {e["tag"]: e for e in c["tagged"]}
+        order = [by_tag[t] for t in seen if t in by_tag] + [e for e in c["tagged"] if e["tag"] not in seen]
+        names = {bytes.fromhex(k): (None if v is None else bytes.fromhex(v)) for k, v in (r.get("links") or {}).items()}
+        pool_nodes = [{"name": names[l], "tag": e["tag"]} for e in order for l in e["links"] if names.get(l) is not None]
+        link_part = "true %s %s %s" % (
+            clist([cpair(s(e["tag"]), clist([s(l) for l in e["links"]])) for e in order]),
+            clist([cpair(s(k), "None" if v is None else "(Some %s)" % s(v)) for k, v in names.items()]),
+            clist([cpair(s(bytes.fromhex(t)), s(bytes.fromhex(n))) for t, n in (r.get("impl_pool") or [])]))
+    else:
+        pool_nodes = c["pool"]
+        link_part = "false [] [] []"
+    pool = clist(["(mkNode %d%%N %s %s)" % (i, s(n["name"]), s(n["tag"])) for i, n in enumerate(pool_nodes)])
     lines = clist([clist([cf(f) for f in l]) for l in c["lines"]])
     annos = clist([clist([cp(p) for p in a]) for a in c["annos"]])
     pol = c["policy"]
@@ -488,7 +599,7 @@ def case_to_coq(c, r, sp):
         ifx = "(Some (Err %s))" % ERR_CTOR[fx["err"]]
     else:
         ifx = "(Some (Ok %d%%N))" % fx["idx"]
-    return "(mkCase %s\n  %s\n  %s\n  %s\n  %s\n  %s\n  %s %s %s)" % (pool, lines, annos, cpol, clist(res), clist(durs), impl, ipol, ifx)
+    return "(mkCase %s\n  %s\n  %s\n  %s\n  %s\n  %s\n  %s %s %s\n  %s)" % (pool, lines, annos, cpol, clist(res), clist(durs), impl, ipol, ifx, link_part)
 
 
 # ----------------------------------------------------------------------------------------------
@@ -524,9 +635,9 @@ def translate_consts():
     return missing
 
 
-SPEC_CODES = (2, 5, 9, 10, 12)
-MODEL_CODES = (1, 4, 7, 8, 11)
-THM_CODES = (3, 6)
+SPEC_CODES = (2, 5, 9, 10, 12, 13)
+MODEL_CODES = (1, 4, 7, 8, 11, 14, 16)
+THM_CODES = (3, 6, 15)
 
 
 def run_batch(sc, binary, cases, tag):
@@ -620,6 +731,11 @@ def reductions(c):
                 if t:
                     d["text"] = t
             out.append(d)
+    if c.get("from_links"):
+        for i, e in enumerate(c["tagged"]):
+            with_(lambda d, i=i: d["tagged"].pop(i))
+            for j in range(len(e["links"])):
+                with_(lambda d, i=i, j=j: d["tagged"][i]["links"].pop(j))
     for i in range(len(c["pool"])):
         with_(lambda d, i=i: d["pool"].pop(i))
     for i in range(len(c["lines"])):
@@ -688,6 +804,8 @@ def matcher_ids(case, result, codes):
         ids.append("panic")
     if 2 in codes:
         ids.append("group.impl_%s" % (("err_" + result.get("err")) if result.get("err") else "ok"))
+    if 13 in codes:
+        ids.append("pool.not_one_per_occurrence")
     if 12 in codes:
         ids.append("fixed.impl_%s" % ((result.get("fixed") or {}).get("err") or "ok"))
     if 10 in codes:
@@ -740,8 +858,9 @@ def main(argv):
             small = enumerate_small()
             if args.tier == "quick":
                 small = rng.sample(small, 80)
-            small = annotation_family() + small      # the annotation family runs in full in both tiers
-            cases = corpus + small + [gen_case(rng, big=(i % 5 == 0)) for i in range(n_cases)]
+            small = annotation_family() + links_family() + small      # these two families run in full in both tiers
+            cases = corpus + small + [(gen_links_case(rng, big=(i % 5 == 0)) if i % 6 == 3 else gen_case(rng, big=(i % 5 == 0)))
+                                      for i in range(n_cases)]
             n_enum = len(small)
         all_err = {}
         all_res = {}
@@ -790,12 +909,16 @@ def main(argv):
                 small = shrink(sc, binary, cases[i], codes) if 9 not in codes else cases[i]
                 errs, _, results, err = run_batch(sc, binary, [small], "final")
                 res = results[0] if results else all_res[i]
+                if res.get("impl_pool") is not None:
+                    res["impl_pool_readable"] = ["tag=%r name=%r" % (show(bytes.fromhex(t)), show(bytes.fromhex(n))) for t, n in res["impl_pool"]]
                 mids = matcher_ids(small, res, codes)
                 what = []
                 if 2 in codes:
                     what.append("group membership/annotation/error differs from the spec")
                 if 5 in codes:
                     what.append("policy validation differs from the spec")
+                if 13 in codes:
+                    what.append("the pool built from the tagged links does not have exactly one node per (subscription tag, link) occurrence")
                 if 12 in codes:
                     what.append("fixed(i) does not select the i-th member of the group / out-of-range not reported")
                 if 10 in codes:
@@ -804,10 +927,10 @@ def main(argv):
                     what.append("implementation panicked or returned a non-pool member")
                 out.violation("impl_vs_spec_" + "_".join(mids).replace(".", "-"),
                               {"case": wire_case(small), "readable": pretty_case(small),
-                               "implementation_answer": {k: res.get(k) for k in ("members", "err", "errmsg", "policy", "perr", "perrmsg", "fixed", "panic", "text") if res.get(k) is not None},
+                               "implementation_answer": {k: res.get(k) for k in ("members", "err", "errmsg", "policy", "perr", "perrmsg", "fixed", "panic", "text", "impl_pool_readable") if res.get(k) is not None},
                                "codes": all_err[i], "original_case_index": i, "matchers": mids,
                                "how": "./check C14 --replay <this file>  (feeds the case to TestVerifC14 in component/outbound and evaluates model and spec in Coq); "
-                                      "codes: 2 group answer not allowed by spec, 5 policy answer not allowed by spec, 9 panic / foreign member, 10 configuration text parsed differently, 12 fixed(i) selection wrong"},
+                                      "codes: 2 group answer not allowed by spec, 5 policy answer not allowed by spec, 9 panic / foreign member, 10 configuration text parsed differently, 12 fixed(i) selection wrong, 13 pool is not one node per (tag, link) occurrence"},
                               "; ".join(what) + " (%d failing cases of this run)" % len(spec_fail), matchers=mids)
                 if len(seen) >= 4:
                     break
@@ -837,7 +960,7 @@ def main(argv):
                    rule="random pools (0-14 nodes; duplicate, empty, non-UTF-8, quoted, multi-line names; 1-3 subscription tags) x group definitions (0-6 filter lines of 0-3 "
                         "possibly negated name()/subtag()/unknown functions with 0-4 exact/keyword/regex/unknown-key parameters drawn from the pool's own names and substrings, "
                         "regexp2-specific and malformed patterns; annotations absent/valid/repeated/malformed/unknown; annotation count mismatch) x policies (bare word, function, list, "
-                        "non-function; five policy names and near misses; fixed with boundary integers, keys, negation, 0-3 params), half of them also as configuration text through the production parser; plus the fixed annotation family (every order of {zero, non-zero, malformed, unknown key} of length 1..3 on a line hit first / never hit / shadowed, in both tiers) and the exhaustive single-line single-function enumeration over an 8-parameter alphabet (all of it in the thorough tier, a sample in quick); "
+                        "non-function; five policy names and near misses; fixed with boundary integers, keys, negation, 0-3 params), half of them also as configuration text through the production parser; plus pools built by the production NewDialerSetFromLinks from tagged link lists (same link under several tags / repeated under one tag / rejected links; a fixed family x3 for map order and 1/6 of the random cases; pool compared per tag in order and by count), the fixed annotation family (every order of {zero, non-zero, malformed, unknown key} of length 1..3 on a line hit first / never hit / shadowed, in both tiers) and the exhaustive single-line single-function enumeration over an 8-parameter alphabet (all of it in the thorough tier, a sample in quick); "
                         "signature = (definition valid, model outcome class, #lines, #members, #lines used as first hit, policy outcome class); "
                         "non-trivial = distinct signatures with >=1 filter line and (>=1 member or an error)",
                    distinct_signatures=distinct,
@@ -845,6 +968,7 @@ def main(argv):
                    traces_validated_against_impl=n_eval - len(model_fail),
                    comparisons="per case: impl group answer = model answer (members by pool index, offsets, error class); impl answer allowed by spec; model answer allowed by spec; same three for the policy",
                    samples=[{"case": wire_case(cases[sample_i]), "readable": pretty_case(cases[sample_i])}],
+                   cases_with_pool_built_from_links=sum(1 for c in cases if c.get("from_links")),
                    cases_through_config_text=sum(1 for c in cases if c.get("text")),
                    cases_with_fixed_selection=sum(1 for r in all_results if r and r.get("fixed")),
                    enumerated_small_scope_cases=n_enum,
